@@ -1361,7 +1361,13 @@ def make_state(fields: dict, ghost: dict) -> St:
 
 
 # ---- glue shared by C06 / C07 ------------------------------------------------------------------
-def report_interp(ctx, interp):
+DOMAIN_NOTE = ("abstract interpretation from EVERY abstract state satisfying the invariant (container lengths 0,1,2,>=3; integers "
+               "-2..2 exact, <=-3, >=3; booleans; None/int for limits): each concrete state is represented by one of them, every "
+               "operation of the method is modelled by a sound over-approximation (splits into all possible abstract results), "
+               "undecidable tests are followed both ways, so the verdict covers all concrete states and histories")
+
+
+def report_interp(ctx, interp, detail: str = DOMAIN_NOTE):
     """Turn the interpreter's marks/problems into obligations (one per rule x site)."""
     for n in sorted(set(interp.notes)):
         ctx.note(n)
@@ -1378,7 +1384,7 @@ def report_interp(ctx, interp):
         p = bad.get(key)
         construct = ctx.construct(qual, node if node is not None else (p.node if p is not None and p.node is not None else None))
         if p is None:
-            ctx.ok(rule, construct)
+            ctx.ok(rule, construct, detail)
         else:
             ctx.violation(rule, construct, p.msg, witness=f"abstract pre-state: {p.pre}")
 
@@ -1397,7 +1403,7 @@ def exit_check(ctx, interp, spec, qual, finals, what="invariant/exit"):
             bad = (r, f)
     node = bad[1].exit[2] if bad and bad[1].exit[2] is not None else None
     ctx.check(bad is None, what, ctx.construct(qual, node) if node is not None else qual + " | <normal exit>",
-              bad[0] if bad else "", detail=f"{len(finals)} abstract paths",
+              bad[0] if bad else "", detail=f"{len(finals)} abstract paths from all abstract invariant states; " + DOMAIN_NOTE,
               witness=f"abstract pre-state: {bad[1].pre}" if bad else "")
 
 
@@ -2186,6 +2192,33 @@ def swallowing_predicate(mod, func):
     return is_sw
 
 
+def single_return(func) -> Optional[ast.AST]:
+    """The value of the only `return <expr>` of a function (locals resolved); None if there is not exactly one."""
+    rets = [r for r in ast.walk(func) if isinstance(r, ast.Return) and r.value is not None
+            and not (isinstance(r.value, ast.Constant) and r.value.value is None)]
+    if len(rets) != 1:
+        return None
+    return resolve_locals(func, rets[0].value)
+
+
+class _InlineGetters(ast.NodeTransformer):
+    """`X.m()` -> body of the single-return method m of the class with `self` replaced by X."""
+
+    def __init__(self, cls):
+        self.ms = methods(cls)
+
+    def visit_Call(self, node):
+        self.generic_visit(node)
+        if isinstance(node.func, ast.Attribute) and not node.args and not node.keywords and node.func.attr in self.ms:
+            m = self.ms[node.func.attr]
+            if len(m.args.args) == 1:
+                r = single_return(m)
+                if r is not None:
+                    return _Subst({m.args.args[0].arg: node.func.value}).visit(clone(r))
+        return node
+
+
+
 def _sattr(node, name):
     return isinstance(node, ast.Attribute) and node.attr == name and isinstance(node.value, ast.Name) and node.value.id == "self"
 
@@ -2215,8 +2248,21 @@ def check_delayed_call(ctx, mod, heap_rules=True):
                         break
             except (MiniRaise, MiniBudget, AttributeError, TypeError) as e:
                 bad = f"{name} does not evaluate on the model ({type(e).__name__}: {e})"
-            ctx.check(bad is None, "key/compares-time", f"{DC}.{name}",
-                      f"heap order is not the order of `time` (the key the reactor maintains): {bad}")
+            ctx.check(bad is None, "model/compares-time", f"{DC}.{name}",
+                      f"heap order is not the order of `time` (the key the reactor maintains): {bad}",
+                      detail="evaluated on a grid of (time, delayed_time) pairs covering <, =, > of both")
+            # structural decider: the single returned comparison, getters inlined, as a linear normal form
+            r = single_return(ms[name])
+            ps = [a.arg for a in ms[name].args.args]
+            nf = lin_cmp(_InlineGetters(cls).visit(r)) if r is not None and len(ps) == 2 else None
+            if nf is None:
+                ctx.note(f"key/compares-time: shape of {name} not recognised, clause left to model/compares-time")
+            else:
+                want = (frozenset({(f"{ps[1]}.time", 1), (f"{ps[0]}.time", -1)}), 0, name == "__lt__")
+                ctx.check(nf == want, "key/compares-time", f"{DC}.{name}",
+                          f"{name} decides `{lin_cmp_text(nf)}`, not `other.time - self.time {'>' if name == '__lt__' else '>='} 0`: the heap is not ordered by "
+                          "the key `time` the reactor maintains (reset()/delay() change delayed_time without re-heapifying)",
+                          detail="linear normal form of the returned comparison")
     with ctx.section("DelayedCall.getTime"):
         ctx.need("getTime" in ms, "DelayedCall.getTime")
         bad = None
@@ -2229,7 +2275,17 @@ def check_delayed_call(ctx, mod, heap_rules=True):
                     break
         except (MiniRaise, MiniBudget, AttributeError, TypeError) as e:
             bad = f"getTime does not evaluate ({e})"
-        ctx.check(bad is None, "key/effective-time", f"{DC}.getTime", f"the scheduled time is not time + delayed_time: {bad}")
+        ctx.check(bad is None, "model/effective-time", f"{DC}.getTime", f"the scheduled time is not time + delayed_time: {bad}",
+                  detail="evaluated on a grid of (time, delayed_time) pairs")
+        r = single_return(ms["getTime"])
+        lf = linform(r) if r is not None else None
+        if lf is None:
+            ctx.note("key/effective-time: shape of getTime not recognised, clause left to model/effective-time")
+        else:
+            sp = ms["getTime"].args.args[0].arg
+            ctx.check(lin_eq(lf, ({f"{sp}.time": 1, f"{sp}.delayed_time": 1}, 0)), "key/effective-time", f"{DC}.getTime",
+                      f"getTime() returns {lin_text(lf)}, not time + delayed_time: reset()/delay() to a later time are ignored (or counted twice)",
+                      detail="linear form of the returned expression")
 
     with ctx.section("DelayedCall.__init__"):
         # ---- __init__ wiring
